@@ -123,6 +123,39 @@ func runC17(c *Ctx, r *Report, tier string) {
 				r.Check(okG, "COLUMN", c.fname(ds), fmt.Sprintf("the %d columns of the description start are reserved under the right condition", k), c.ipos(in), "+"+fmt.Sprint(k)+" exactly under "+w, "+"+fmt.Sprint(k)+" is added under "+strings.Join(lits, " ∧ ")+": rows that print that part are wider than the column computed for them (negative padding)")
 			}
 		}
+		// the same parts written as named intermediates: `part := 0; if cond { part = k }` (a phi of k and 0)
+		for _, b := range c.blocks(ds) {
+			for _, in := range b.Instrs {
+				ph, ok := in.(*ssa.Phi)
+				if !ok || len(ph.Edges) != 2 {
+					continue
+				}
+				k0, ok0 := constInt(ph.Edges[0])
+				k1, ok1 := constInt(ph.Edges[1])
+				if !ok0 || !ok1 || (k0 != 0) == (k1 != 0) {
+					continue
+				}
+				ki, k := 0, k0
+				if k0 == 0 {
+					ki, k = 1, k1
+				}
+				pred := ph.Block().Preds[ki]
+				var lits []string
+				if l, ok := c.edgeLitTo(pred, ph.Block()); ok && len(pred.Succs) == 2 {
+					lits = append(lits, l.String())
+				} else {
+					for _, d := range c.controlDeps(ds, pred) {
+						if l, ok := c.edgeLit(d.B, d.Succ); ok {
+							lits = append(lits, l.String())
+						}
+					}
+				}
+				w, known := want[k]
+				seen[k] = true
+				okG := known && len(lits) == 1 && (lits[0] == w || k == 4 && lits[0] == "nonzero(alignmentInfo.maxLongLen(P0))")
+				r.Check(okG, "COLUMN", c.fname(ds), fmt.Sprintf("the %d columns of the description start are reserved under the right condition", k), c.ipos(in), "+"+fmt.Sprint(k)+" exactly under "+w, "+"+fmt.Sprint(k)+" is added under "+strings.Join(lits, " ∧ ")+": rows that print that part are wider than the column computed for them (negative padding)")
+			}
+		}
 		r.Check(seen[2] && seen[4] && seen[3], "COLUMN", c.fname(ds), "the three conditional parts of the column", c.pos(ds.Pos()), "+2 (short), +4 (long separator), +3 (value name)", fmt.Sprintf("found %v", seen))
 	}
 	colExpr := "(call:(*alignmentInfo).descriptionStart(new:alignmentInfo) + 2)"
